@@ -46,9 +46,21 @@ Recommended but optional to implement for a concrete detector:
 __author__ = ["Tveten"]
 __all__ = ["BaseDetector"]
 
+import numpy as np
 import pandas as pd
 from sktime.base import BaseEstimator
 from sktime.utils.validation.series import check_series
+
+
+def _combine_first(new, old):
+    """Combine new data with old data, the new data taking precedence.
+
+    NumPy arrays have no index to align on and no `combine_first`. They are treated
+    as data frames with a default range index, as everywhere else.
+    """
+    if isinstance(new, np.ndarray) or isinstance(old, np.ndarray):
+        new, old = pd.DataFrame(new), pd.DataFrame(old)
+    return new.combine_first(old)
 
 
 class BaseDetector(BaseEstimator):
@@ -355,10 +367,10 @@ class BaseDetector(BaseEstimator):
         if y is not None:
             y = check_series(y, allow_index_names=True)
 
-        self._X = X.combine_first(self._X)
+        self._X = _combine_first(X, self._X)
 
         if y is not None:
-            self._y = y.combine_first(self._y)
+            self._y = _combine_first(y, self._y)
 
         self._update(X=X, y=y)
 
